@@ -37,7 +37,7 @@ func init() {
 		},
 		Batches: tiered(144, 2880),
 		Run:     runC11,
-		Timeout: timeoutFor(8*time.Minute, 40*time.Minute),
+		Timeout: timeoutFor(3*time.Minute, 40*time.Minute),
 	})
 }
 
